@@ -328,6 +328,9 @@ func sampleParams(k int) *mcp.CreateMessageParams {
 	return &mcp.CreateMessageParams{MaxTokens: 1, Messages: []*mcp.SamplingMessage{{Role: "user", Content: &mcp.TextContent{Text: fmt.Sprint(k)}}}}
 }
 
+// settle is how long (virtual time) the wind-down lets a shutdown that needs no help run before judging it.
+const settle = 3 * time.Minute
+
 func runLinksInBubble(s LScript) (res vt.Result) {
 	w := &lworld{gates: map[int]chan struct{}{}, serverCloseCalled: map[*mcp.ServerSession]int{}, serverCloseRet: map[*mcp.ServerSession]int{}}
 	bg := context.Background()
@@ -478,14 +481,21 @@ func runLinksInBubble(s LScript) (res vt.Result) {
 		cs, e = client.Connect(bg, clientTransport, opts)
 		cerr <- e
 	}()
-	synctest.Wait()
-	select {
-	case e := <-cerr:
-		if e != nil {
-			res.Failf("harness: connect over %s: %v", s.Link, e)
-			return
+	connected := false
+	for i := 0; i < 120 && !connected; i++ { // Connect may take virtual time; only "never" fails the set-up
+		synctest.Wait()
+		select {
+		case e := <-cerr:
+			if e != nil {
+				res.Failf("harness: connect over %s: %v", s.Link, e)
+				return
+			}
+			connected = true
+		default:
+			time.Sleep(time.Second)
 		}
-	default:
+	}
+	if !connected {
 		res.Failf("harness: connect over %s did not return", s.Link)
 		return
 	}
@@ -737,7 +747,8 @@ func runLinksInBubble(s LScript) (res vt.Result) {
 		w.open(1000 + k)
 	}
 	synctest.Wait()
-	time.Sleep(20 * time.Second) // more than the bounded session-termination DELETE of the streamable client
+	// (the property sets no deadline: a generous bound, not one tuned to today's DELETE timeout and reconnect delays)
+	time.Sleep(settle)
 	synctest.Wait()
 	w.mu.Lock()
 	wasCut := w.cutClock != 0
@@ -749,7 +760,7 @@ func runLinksInBubble(s LScript) (res vt.Result) {
 		// invisible to the server: its unanswered requests are retired when their callers give up, below.)
 		for _, bl := range blockers {
 			if !bl.returned() && (bl.kind == "close" || bl.kind == "call" || bl.kind == "notify") {
-				res.Failf("%s has not returned although every handler has returned and 20s have passed (link %s, cut=%v)", bl.what, s.Link, wasCut)
+				res.Failf("%s has not returned although every handler has returned and %v have passed (link %s, cut=%v)", bl.what, settle, s.Link, wasCut)
 			}
 		}
 	}
@@ -771,11 +782,11 @@ func runLinksInBubble(s LScript) (res vt.Result) {
 			// stateless: every request has a temporary session that ends with the request.
 			for _, bl := range blockers {
 				if bl.kind == "wait" && strings.Contains(bl.what, "server session") && !bl.returned() {
-					res.Failf("ClientSession.Close returned (or the link is stateless) and every handler has returned, yet 20s later the %s has not returned: the server side of the session is still up (link %s)", bl.what, s.Link)
+					res.Failf("ClientSession.Close returned (or the link is stateless) and every handler has returned, yet %v later the %s has not returned: the server side of the session is still up (link %s)", settle, bl.what, s.Link)
 				}
 			}
 			if live != 0 {
-				res.Failf("ClientSession.Close returned (or the link is stateless) and every handler has returned, yet 20s later the server still lists %d session(s) (link %s)", live, s.Link)
+				res.Failf("ClientSession.Close returned (or the link is stateless) and every handler has returned, yet %v later the server still lists %d session(s) (link %s)", settle, live, s.Link)
 			}
 		}
 		// The client learns that the server closed the session when the link carries that news: EOF on
@@ -785,7 +796,7 @@ func runLinksInBubble(s LScript) (res vt.Result) {
 		if serverClosed && tells {
 			for _, bl := range blockers {
 				if bl.what == "ClientSession.Wait" && !bl.returned() {
-					res.Failf("a ServerSession.Close returned and every handler has returned, yet 20s later ClientSession.Wait has not returned (link %s)", s.Link)
+					res.Failf("a ServerSession.Close returned and every handler has returned, yet %v later ClientSession.Wait has not returned (link %s)", settle, s.Link)
 				}
 			}
 		}
